@@ -36,13 +36,17 @@ for mean in (-3.0, 0.0, 2.5):
     for var in (0.01, 0.16, 1.0, 4.0, 100.0):
         GRID.append(("normal", (mean, var)))
 GRID.append(("normal", ()))
-for lohi in ((0.0, 1.0), (-2.0, -0.5), (-1.0, 3.0), (5.0, 5.5), (-1e-3, 1e-3)):
+GRID.append(("normal", (0, 4)))        # python ints / zeros as parameters
+GRID.append(("normal", (-2, 9)))
+for lohi in ((0.0, 1.0), (-2.0, -0.5), (-1.0, 3.0), (5.0, 5.5), (-1e-3, 1e-3), (-3.0, 0.0), (-3, 0), (0, 2), (0.0, 0.25), (-0.5, 0)):
     GRID.append(("uniform", lohi))
 GRID.append(("uniform", ()))
 for mean in (-1.0, 0.0, 4.0):
     for scale in (0.1, 1.0, 5.0):
         GRID.append(("laplace", (mean, scale)))
 GRID.append(("laplace", ()))
+GRID.append(("laplace", (0, 2)))
+GRID.append(("laplace", (0.0, 0.5)))
 GRID.append(("zero", ()))
 GRID.append(("null", ()))
 
@@ -115,6 +119,22 @@ def judge(family, case, rec):
     if x.shape != (N,) or not np.isfinite(x).all():
         rec.violation("C20:%s-shape" % kind, family, case, "n=%d gives shape %r / non-finite values" % (N, x.shape))
         return
+    # a copy of the callable (ANM deep-copies the noise distributions it is given) is the same distribution drawing from
+    # the same global generator
+    import copy
+    g = copy.deepcopy(f)
+    np.random.seed(s)
+    xg = g(min(N, 1000))
+    if xg.shape != (min(N, 1000),) or not np.array_equal(xg, x[: min(N, 1000)]):
+        rec.violation("C20:%s-deepcopy-draws-differently" % kind, family, case,
+                      "a deep copy of the callable does not reproduce the draws of the original after np.random.seed(s)")
+    else:
+        rec.count("repro:deepcopy-equal")
+    np.random.seed(s)
+    g(5)
+    np.random.seed(s)
+    if not np.array_equal(g(7), x[:7]):
+        rec.violation("C20:%s-deepcopy-not-reseedable" % kind, family, case, "a deep copy of the callable ignores np.random.seed on later calls")
     # reproducibility after seeding the global generator
     np.random.seed(s)
     x2 = f(N)
@@ -133,8 +153,9 @@ def judge(family, case, rec):
     # i.i.d. draws of a continuous law do not repeat values (a handful of coincidences among 53-bit doubles is
     # possible at n = 1e6: expected ~1e-4; ten or more is not)
     dups = N - len(np.unique(x))
-    rec.max("max-duplicated-values", dups)
-    if dups >= 10:
+    expected = S.expected_coincidences(N, max(abs(mu) + 4 * math.sqrt(var), abs(lo) if math.isfinite(lo) else 0, abs(hi) if math.isfinite(hi) else 0), math.sqrt(var))
+    rec.max("max-duplicated-values-above-expectation", dups - 10 * expected)
+    if dups >= 10 + 10 * expected:
         rec.violation("C20:%s-repeated-draws" % kind, family, case, "%d of %d draws repeat an earlier value: not i.i.d." % (dups, N))
     # distribution: DKW band
     ks = S.ks_distance(x, cdf)
